@@ -1,6 +1,7 @@
 SPECIFICATION Spec
 CONSTANTS
   Fused = FALSE
+  SoftReest = FALSE
   MaxAdds = 1
   MaxHeight = 3
   MaxDisc = 1
